@@ -368,8 +368,22 @@ FamC16f(dummy) ==
             pl \in {<<>>} \cup {<<F(x)>> : x \in ItemIds(P, {"and_then"})}} :
          P \in {Build(Kind(FALSE, t, FALSE), "res", pr, StepC16, NoName, ExprInit, h) : t \in BOOLEAN, h \in {"none"},
                   pr \in {<<1, 1>>, <<2, 2>>, <<3, 3>>, <<2, 2, 2>>}}}
+\* closure-valued branches: the initial expression is a closure literal, a later step calls it.  Handing a branch over
+\* lazily (threads, `lazy_branches(true)`) wraps the branch EXPRESSION, whatever it is, and never runs the user's closure
+ThunkProg(kd, pr, o) ==
+  [Prog(kd, "res",
+        [i \in 1 .. Len(pr) |->
+           IF pr[i] = 1
+           THEN Branch(i - 1, "none", "thunk", << <<>>, <<Item(IdOf(i - 1, 1, 1), "force", "closure", <<>>), Item(IdOf(i - 1, 1, 2), "map", "closure", <<>>)>> >>)
+           ELSE Branch(i - 1, "none", "expr", << <<Item(IdOf(i - 1, 0, 1), "map", "closure", <<>>)>>, <<Item(IdOf(i - 1, 1, 1), "map", "closure", <<>>)>> >>)],
+        "none") EXCEPT !.opts = o]
+FamC16t(dummy) ==
+  UNION {{Run(ThunkProg(Kind(FALSE, FALSE, sp), pr, o), <<>>, {}) :
+            pr \in {<<1>>, <<1, 0>>, <<0, 1>>, <<1, 1>>, <<1, 0, 1>>},
+            o \in {q \in {[joiner |-> j, lazy |-> l, transpose |-> "default", path |-> "default"] : j \in {"none", "eager", "lazy"}, l \in {"default", "true"}} :
+                     OkOpts(Kind(FALSE, FALSE, sp), q)}} : sp \in BOOLEAN}
 FamC16(dummy) ==
-  FamC16j(0) \cup FamC16f(0) \cup
+  FamC16j(0) \cup FamC16f(0) \cup FamC16t(0) \cup
   UNION {{Run([P EXCEPT !.opts = o], pl, {}) : pl \in {<<>>} \cup {<<F(x)>> : x \in ItemIds(P, {"and_then"})},
                                                 o \in {q \in OptsC16(P.kind) : OkOpts(P.kind, q)}} :
          P \in {Build(kd, "res", pr, StepC16, NoName, ExprInit, "none") : kd \in Kinds8,
@@ -544,7 +558,8 @@ RECURSIVE RunItems(_, _, _, _, _, _)
 RunItems(P, PL, b, its, i, v) ==
   IF i > Len(its) THEN v
   ELSE LET it == its[i]
-           nv == IF it.op = "or" THEN (IF v.ok THEN v ELSE AltV(P, PL, b, it.id))
+           nv == IF it.op = "force" THEN InitV(P, PL, b)
+                 ELSE IF it.op = "or" THEN (IF v.ok THEN v ELSE AltV(P, PL, b, it.id))
                  ELSE IF Invoked(P, it.op, v) THEN After(P, it.op, ActOf(PL, "f", it.id), v, it.id, b)
                  ELSE v
        IN  RunItems(P, PL, b, its, i + 1, nv)
